@@ -136,25 +136,29 @@ def parse_trace(text):
     return out
 
 
-def _run_bin(binary, ops_text, timeout):
+def _run_bin(binary, ops_text, timeout, args=()):
     try:
-        r = subprocess.run([binary], input=ops_text, capture_output=True, text=True, timeout=timeout)
+        r = subprocess.run([binary] + list(args), input=ops_text, capture_output=True, text=True, timeout=timeout)
         return r.returncode, r.stdout, r.stderr
     except subprocess.TimeoutExpired as e:
         return "timeout", (e.stdout or b"").decode() if isinstance(e.stdout, bytes) else (e.stdout or ""), ""
 
 
-def run_histories(histories, timeout=600, shards=NCPU, want_model=True):
-    """runs all histories on implementation and model; returns
-    (impl: hid -> lines, model: hid -> lines, problems: list of str)"""
+def run_histories(histories, timeout=600, shards=NCPU, want_model=True, want_spec=False):
+    """runs all histories on implementation, model and (optionally) the
+    reference model; returns (impl, model, problems, spec), each a dict
+    hid -> lines"""
     shards = max(1, min(shards, len(histories)))
     chunks = [histories[i::shards] for i in range(shards)]
-    impl, model, problems = {}, {}, []
+    impl, model, spec, problems = {}, {}, {}, []
 
     def job(kind, chunk):
         text = "".join(h.text() for h in chunk)
-        binary = HARNESS_BIN if kind == "impl" else MODEL_BIN
-        return kind, chunk, _run_bin(binary, text, timeout)
+        if kind == "impl":
+            return kind, chunk, _run_bin(HARNESS_BIN, text, timeout)
+        if kind == "spec":
+            return kind, chunk, _run_bin(MODEL_BIN, text, timeout, ["spec"])
+        return kind, chunk, _run_bin(MODEL_BIN, text, timeout)
 
     with concurrent.futures.ThreadPoolExecutor(max_workers=NCPU) as ex:
         futs = []
@@ -162,16 +166,18 @@ def run_histories(histories, timeout=600, shards=NCPU, want_model=True):
             futs.append(ex.submit(job, "impl", c))
             if want_model:
                 futs.append(ex.submit(job, "model", c))
+            if want_spec:
+                futs.append(ex.submit(job, "spec", c))
         for f in futs:
             kind, chunk, (rc, out, err) = f.result()
             tr = parse_trace(out)
-            (impl if kind == "impl" else model).update(tr)
+            {"impl": impl, "model": model, "spec": spec}[kind].update(tr)
             if rc != 0:
                 missing = [h.hid for h in chunk if h.hid not in tr]
                 problems.append({"kind": kind, "rc": rc, "stderr": err[-2000:],
                                  "first_unfinished": missing[0] if missing else None,
                                  "last_started": list(tr.keys())[-1] if tr else None})
-    return impl, model, problems
+    return impl, model, problems, spec
 
 
 # ---------------------------------------------------------------- snapshots
